@@ -525,12 +525,17 @@ def run_bbs(case):
     i2b = {i: lab(b) for i, b in enumerate(case["i2b"])}
     b2s = {lab(j): z for j, z in enumerate(case["b2s"])}
     smp = tuple(case["sampler"]) if case.get("seqtype") == "tuple" else list(case["sampler"])
-    if case.get("call") == "kw":
-        s = BucketBatchSampler(sampler=smp, idx2bucket=i2b, bucket2size=b2s, drop_incomplete=case["drop"])
-    elif case.get("call") == "default" and not case["drop"]:
-        s = BucketBatchSampler(smp, i2b, b2s)
-    else:
-        s = BucketBatchSampler(smp, i2b, b2s, case["drop"])
+    try:
+        # the constructor is part of the observed behaviour: an exception here (the model never rejects at construction) is
+        # an outcome to compare, not a breakdown of the harness
+        if case.get("call") == "kw":
+            s = BucketBatchSampler(sampler=smp, idx2bucket=i2b, bucket2size=b2s, drop_incomplete=case["drop"])
+        elif case.get("call") == "default" and not case["drop"]:
+            s = BucketBatchSampler(smp, i2b, b2s)
+        else:
+            s = BucketBatchSampler(smp, i2b, b2s, case["drop"])
+    except Exception as e:
+        return {"err": "ctor:" + exc_kind(e)}
     try:
         if case.get("peek") is not None:
             # history: an iterator abandoned after `peek` batches must not influence the next one
@@ -1585,6 +1590,8 @@ def run(chk, cases=None):
             chk.count("cw.window=%s%s" % ("asym" if c["left"] != c["right"] else "sym", "+reverse" if c["reverse"] else ""))
     mres = coq_eval_bools(chk.workdir, IMPORTS, mterms, shard=120)
     source_tie(chk, cases, outs)
+    from props import c14_tie      # second source tie: windows, collate functions, bucket parameters interpreted in Coq
+    c14_tie.source_tie(chk, cases, outs)
     need = [i for i in range(len(cases)) if sterms[i] is not None and needs_spec(cases[i], outs[i], mres[i])]
     sres = dict(zip(need, coq_eval_bools(chk.workdir, IMPORTS, [sterms[i] for i in need], shard=60, tag="spec")))
     chk.extra["model_disagreements"] = sum(1 for r in mres if not r)
